@@ -77,6 +77,8 @@ pub enum Op {
         delta: Val,
     },
     Len,
+    /// the user's closure returns an error (GadgetError): prove / verify must hand it back
+    Fail,
     /// constrain(expr - c) with expr built through the real operator impls (C15)
     Expr {
         e: Expr,
